@@ -291,6 +291,21 @@ def run(rep, tier, rng):
                                "history": s.forms[:k + 1], "probe": s.forms[k], "expected": e, "implementation": g})
                 break
     rep.extra["operations"] = ops
+    # a vector stored into ITSELF (and into a vector it contains): the element IS the vector - probed by identity and by writes
+    # through either path, never printed (the random histories avoid cycles because a cyclic value has no printed form)
+    selfv = ["(define sv (vector 1 2 3))", "(define sw sv)", "(vector-set! sv 0 sv)", "(eqv? (vector-ref sv 0) sv)",
+             "(vector-set! sv 1 77)", "(vector-ref (vector-ref sv 0) 1)", "(vector-set! (vector-ref sw 0) 2 88)", "(vector-ref sv 2)",
+             "(eqv? (vector-ref (vector-ref sw 0) 0) sv)", "(define inner (vector 0 sv))", "(vector-set! sv 1 inner)",
+             "(eqv? (vector-ref (vector-ref sv 1) 1) sv)", "(vector-set! (vector-ref (vector-ref sv 1) 1) 2 99)", "(vector-ref sw 2)",
+             "((mk-poker sv) 2 sv)", "(eqv? (vector-ref sw 2) sw)", "(vector-length (vector-ref sv 2))"]
+    swant = ["N", "N", "V <void>", "V #t", "V <void>", "V i:77", "V <void>", "V i:88", "V #t", "N", "V <void>", "V #t", "V <void>", "V i:99",
+             "V <void>", "V #t", "V i:3"]
+    sgot = C.run_hx([("self", "prog", ["std"] + PRELUDE + selfv)]).get("self", [])[len(PRELUDE):]
+    rep.count(); rep.nontrivial(("self-store",))
+    if sgot != swant:
+        j = next((j for j in range(min(len(sgot), len(swant))) if sgot[j] != swant[j]), None)
+        rep.violation({"what": "a vector stored into itself is not the same object as the vector (identity, or a write through one path not seen through the other)",
+                       "history": selfv[:(j or 0) + 1], "probe": selfv[j] if j is not None else None, "expected": swant, "implementation": sgot})
     scope_soup(rep, tier, rng)
 
 
